@@ -65,11 +65,13 @@ def runDwt (op : String) (ps : List Int) (ts : List (Option (T α))) : Res α :=
           SFB1D_forward m g0.l1 g1.l1 (lo.l3.getD i []) (hi.l3.getD i [])
         some [some (ofL3 y)]
     | _ => .bad
-  | "SFB1D_bwd", [m], [some g0, some g1, some dy] =>
+  | "SFB1D_bwd", [m, _n, mask], [some g0, some g1, some dy] =>
     match modeOfInt m with
     | some m => resOfOpt do
+        if mask = 0 then some [none, none] else
         let y ← dy.l3.mapM (SFB1D_backward m g0.l1 g1.l1)
-        some [some (ofL3 (y.map (·.1))), some (ofL3 (y.map (·.2)))]
+        some [if mask % 2 = 1 then some (ofL3 (y.map (·.1))) else none,
+              if mask / 2 = 1 then some (ofL3 (y.map (·.2))) else none]
     | _ => .bad
   | "AFB2D_fwd", [m], [some wr0, some wr1, some wc0, some wc1, some x] =>
     match modeOfInt m with
@@ -91,11 +93,13 @@ def runDwt (op : String) (ps : List Int) (ts : List (Option (T α))) : Res α :=
           SFB2D_forward m gr0.l1 gr1.l1 gc0.l1 gc1.l1 (low.l4.getD i []) (highs.l5.getD i [])
         some [some (ofL4 y)]
     | _ => .bad
-  | "SFB2D_bwd", [m], [some gr0, some gr1, some gc0, some gc1, some dy] =>
+  | "SFB2D_bwd", [m, _h, _w, mask], [some gr0, some gr1, some gc0, some gc1, some dy] =>
     match modeOfInt m with
     | some m => resOfOpt do
+        if mask = 0 then some [none, none] else
         let y ← dy.l4.mapM (SFB2D_backward m gr0.l1 gr1.l1 gc0.l1 gc1.l1)
-        some [some (ofL4 (y.map (·.1))), some (ofL5 (y.map (·.2)))]
+        some [if mask % 2 = 1 then some (ofL4 (y.map (·.1))) else none,
+              if mask / 2 = 1 then some (ofL5 (y.map (·.2))) else none]
     | _ => .bad
   | "DWT1DForward", [m, J], [some h0, some h1, some x] =>
     match modeOfInt m with
